@@ -23,7 +23,6 @@ ASSUMPTIONS = [
     "Blocks satisfy the harness-side predicate block_ok (no Twp/Rge, section or P.M. look-alike; start with a letter; do not start or end with characters/words that cleanup strips).",
     "desc_STR: the joiner between a section and its trailing Twp/Rge is a separator, not 'of'/'in' (DESIGN 6.2).",
     "A bare '154N-97W' spelling is not generated directly after a section list or with range 2 (DESIGN 3.1).",
-    "S_desc_TR: a block that is exactly ALL joined to its Twp/Rge by of/in is excluded and counted (finding F18).",
 ]
 
 
